@@ -350,6 +350,33 @@ theorem refused_only_unresolved (c : Cfg) (e : PExpr) (f : String) :
       simp [TrErr.isAttr] at this
 
 
+/-- **The header is reachable in every rendered file** (`executor.write_cpp_files` + the templates of
+the three backends).  Whatever `inject_code` blocks the query carries: if the translation added
+`cmath` (it does for every call of a table function: `includes_of_called`, `header`), every rendered
+C++ file that calls a math function sees `<cmath>` — `query.cxx` and `Analyzer.cc` directly;
+`query.h` provided injected declarations that call a math function bring the include with them. -/
+theorem package_spec (b : Backend) (qv : List String) (mds : List Inject) (hdrCalls : Bool)
+    (hq : "cmath" ∈ qv) (hh : hdrCalls = true → "cmath" ∈ headerIncsOf mds) :
+    PackageSpec (packageFiles b qv mds hdrCalls) = true := by
+  cases b
+  · simp only [PackageSpec, packageFiles, List.all_cons, List.all_nil, Bool.and_true, Bool.and_eq_true,
+      Bool.or_eq_true, Bool.not_eq_true']
+    constructor
+    · right
+      simp [sees, hq]
+    · cases hdrCalls with
+      | false => left; rfl
+      | true => right; simp [sees, hh rfl]
+  all_goals
+    simp [PackageSpec, packageFiles, sees, hq]
+
+/-- `PackageSpec` is not vacuous: a CMS `Analyzer.cc` that calls a math function and does not list
+`cmath` fails it (CMS renders no header that could supply it); an ATLAS `query.cxx` may get it
+through `query.h`. -/
+theorem package_spec_discriminates :
+    PackageSpec [⟨"Analyzer.cc", ["vector"], true⟩] = false ∧
+    PackageSpec [⟨"query.cxx", ["query.h"], true⟩, ⟨"query.h", ["cmath"], false⟩] = true := by decide
+
 /-! ## Part III — the property, on the generated constants -/
 
 /-
@@ -522,6 +549,26 @@ theorem c12_partial (e : PExpr) (hd : Documented Gen.readmeFunctions e = true) (
   have hs := documented_clean_scoped e hd hc
   obtain ⟨v, h1, h2, h3, _, h5⟩ := computes_namesake_partial e hs
   exact ⟨spec_partial e hs, v, h1, h2, h3, h5⟩
+
+/-- **C12 at package level, for every expression in scope that calls a function**: on each of the
+three backends and with any `inject_code` blocks, the model's package for the translated query lets
+every C++ file that calls a math function see `<cmath>`. -/
+theorem package_partial (b : Backend) (mds : List Inject) (hdrCalls : Bool)
+    (hh : hdrCalls = true → "cmath" ∈ headerIncsOf mds)
+    (e : PExpr) (hs : Scoped Gen.cfg e = true) (hcall : calledNames e ≠ []) :
+    ∃ v, tr Gen.cfg e = .ok v ∧ PackageSpec (packageFiles b v.incs mds hdrCalls) = true := by
+  obtain ⟨v, h1, _⟩ := scoped_faithful Gen.cfg cfg_ok e hs
+  refine ⟨v, (tr_iff _ _ _).2 h1, package_spec b v.incs mds hdrCalls ?_ hh⟩
+  obtain ⟨f, hf⟩ := List.exists_mem_of_ne_nil _ hcall
+  obtain ⟨r, hk, hsome, hmean, _⟩ := scoped_calls Gen.cfg e hs f hf
+  have hr : r ∈ Gen.table := findKnown_mem hk
+  have hh' := header r hr
+  unfold rowHeader at hh'
+  cases hm : meaningCpp r.cpp with
+  | none => simp [hm] at hh'
+  | some m =>
+    simp only [hm, List.contains_eq_mem, decide_eq_true_eq] at hh'
+    exact includes_of_called Gen.cfg e v h1 f hf r hk _ hh'
 
 /-- A documented expression is never refused with "Do not know how to call" one of the documented
 functions, and no documented name makes the resolver raise. -/
